@@ -425,7 +425,10 @@ def known_findings():
 # --------------------------------------------------------------------------------------------
 
 class Check:
-    def __init__(self, pid, tier, level):
+    def __init__(self, pid, tier, level, growth=False):
+        # growth=True: a specification beyond the listed properties; divergences are reported as such (no property id, results
+        # under /verif/growth/), never as a violation of a listed property
+        self.growth = growth
         self.pid = pid
         self.tier = tier
         self.level = level
@@ -506,7 +509,7 @@ class Check:
             with open(path, "w") as fh:
                 json.dump({"property": self.pid, "key": v["key"], "desc": v["desc"], "replay": v["replay"],
                            "tier": self.tier, "seed": seed(), "count": v["count"]}, fh, indent=1)
-            print("VIOLATION property=%s replay=%s" % (self.pid, path))
+            print(("DIVERGENCE growth=%s replay=%s" if self.growth else "VIOLATION property=%s replay=%s") % (self.pid, path))
             print("  key=%s count=%d: %s" % (v["key"], v["count"], v["desc"]))
             vrecs.append({"key": v["key"], "desc": v["desc"], "count": v["count"], "replay": path})
             rc = 1
@@ -514,7 +517,9 @@ class Check:
         ev = {"property_id": self.pid, "tier": self.tier, "seed": seed(), "level": self.level,
               "coverage": self.cov, "assumptions": self.assumptions, "wall_s": round(wall, 2),
               "violations": len(self.violations)}
-        with open(os.path.join(EVID, self.pid + ".json"), "w") as fh:
+        evdir = os.path.join(ROOT, "growth") if self.growth else EVID
+        os.makedirs(evdir, exist_ok=True)
+        with open(os.path.join(evdir, self.pid + ".json"), "w") as fh:
             json.dump(ev, fh, indent=1, default=str)
         if rc == 0:
             print("OK property=%s tier=%s seed=%d states=%d impl_traces=%d wall=%.1fs" % (
